@@ -71,6 +71,7 @@ _C01_ALLOC = {
     3: ['packed565_u16', 'packed1010102_u32', 'packed16x4_u64'], 4: ['bits_gray1', 'bits_gray2', 'bits_gray4', 'bits_gray7'],
     5: ['bits_rgb121', 'bits_rgb222', 'bits_bgr565'], 6: ['bits_rgb101010', 'bits_rgb121212', 'bits_rgba7777'],
     7: ['rgb8_oddbase', 'rgb16_planar_oddbase', 'bits_bgr565_oddbase'],      # allocator handing out odd addresses
+    8: ['rgb8_sticky', 'rgb16_planar_sticky'],      # stateful non-propagating allocator: moved-from images that are recreated
 }
 def _c01_alloc_runs(bounds, shards):
     return [dict(tu='c01a_%d' % s, group=g, bounds=dict(bounds), shards=shards) for s, gs in sorted(_C01_ALLOC.items()) for g in gs]
